@@ -27,10 +27,11 @@ seed-dependent ingredients are generic atoms drawn from env.rng(tag).
              element; both answers of the environment (entropy stream used by ARPACK's start vector). Must be True.
   (twin)   : the same configurations with the planted element replaced by a generic atom are executed as well; their
              answers are only recorded (liveness / non-vacuity: the certificate is issued on comparable input).
-  numrange : get_matrix_numerical_range(A, num_point) for n = 2..8 (dense branch n<5, ARPACK branch n>=5), A from
+  numrange : get_matrix_numerical_range(A[, num_point]) for n = 1..8 (one dense eigensolver for every size since the repair of the
+             ARPACK branch; the key segment dense / arpack is kept as the name of the size classes n<5 / n>=5), A from
              {Hermitian, i*Hermitian, normal, unitary, Jordan block, real / complex diagonal (polygon), identity, zero,
-             matrix unit, rank one, real antisymmetric, real generic atoms, complex generic atoms}, num_point from a
-             list, entropy stream in {0,1}.  Oracle 3: Re(e^{i th_j} p_j) == lambda_max((e^{i th_j}A + h.c.)/2) for every
+             matrix unit, rank one, real antisymmetric, real generic atoms, complex generic atoms, integer (int64) Jordan / diagonal /
+             generic atoms; n=1: scalars}, num_point from a list (+ the call without num_point at one size), entropy stream in {0,1}.  Oracle 3: Re(e^{i th_j} p_j) == lambda_max((e^{i th_j}A + h.c.)/2) for every
              returned point, and every point lies in all supporting half planes of the sampled directions.
 
 Tolerances (DESIGN 3.2: c * eps * kappa, c = 1e3 fixed):
@@ -49,10 +50,13 @@ Tolerances (DESIGN 3.2: c * eps * kappa, c = 1e3 fixed):
             planted element to 1e-12 (checked by projection), and the claim is the one-sided boolean. A generator list
             whose QR has min|R_ii|/max|R_ii| < 1e-6 is skipped_ill_conditioned.
   numrange: p = x^H A x with x the computed top eigenvector of H = Re(e^{i th}A). Rayleigh quotient error <= residual
-            <= O(n eps ||H||) for LAPACK (dense) and for ARPACK with tol=0; evaluating x^H A x adds n eps ||A||:
+            <= O(n eps ||H||) for LAPACK (and for ARPACK with tol=0, should a sparse branch come back); evaluating x^H A x adds n eps ||A||:
             tol = c eps n ||A||_2  (kappa = n ||A||_2; 0 for A = 0, where the answer is exactly 0).
 """
+import contextlib
+import io
 import itertools
+from math import comb
 
 import numpy as np
 
@@ -89,8 +93,18 @@ CHUNK = 1
 
 C_SAFETY = 1e3
 EPS = 2.220446049250313e-16
+EPS32 = 1.1920928955078125e-07   # float32 / complex64 generator lists (dtype axis of decomp)
 SIGMA_HI = 1e-6    # reference singular values above this are "non-zero"
 SIGMA_LO = 1e-11   # ... below this are "zero" (library threshold zero_eps=1e-10 lies in between)
+# additions whose oracle fires on the unchanged tree (defect reported, repair of numqi pending): skipped and counted
+PENDING = {'bipartite_zero_matrix'}
+QUANT = 1024.0     # dtype axis: atoms rounded to multiples of 1/1024 (exact in float32, as are their integer combinations)
+DTYPE_PATTERNS = ('dup', 'sum', 'mix')
+ZERO_EPS_CERT = (1e-10, 1e-13, 1e-5)   # zero_eps option of the three certificates (default 1e-7): two smaller values, one larger
+RAW_PATTERNS = ('indep', 'dup', 'sum', 'zero', 'mix')   # rank1 on raw generator lists: dependency patterns ...
+RAW_SCALES = (1e-3, 1.0, 1e3)                           # ... x common scale of the generators
+ZERO_EPS_DECOMP = (1e-6, 1e-13)        # zero_eps option of get_matrix_orthogonal_basis ...
+PERTURB_DECOMP = (1e-4, 1e-9, 1e-15)   # ... x size of the perturbation of the duplicated generator (factor >= 100 between the grids)
 T_ROT = {'quick': (1e-3, 1e-4, 1e-5), 'thorough': (1e-2, 1e-3, 1e-4, 1e-5, 1e-6)}   # planar rotation angles of the near-aligned change of basis
 
 
@@ -272,51 +286,63 @@ def gen_units(gen, field, m, n):
 
 
 # =============================================================================================== decomp
-def tol_decomp(ncoord, scale):
-    return C_SAFETY * EPS * ncoord * max(scale, 1e-300)
+def tol_decomp(ncoord, scale, eps=EPS):
+    return C_SAFETY * eps * ncoord * max(scale, 1e-300)
 
 
-def check_decomp(numqi, out, gens, field, strict_char, label, cfg):
-    """one state: call get_matrix_orthogonal_basis and evaluate every clause of oracle 1"""
+def check_decomp(numqi, out, gens, field, strict_char, label, cfg, zero_eps=None, variant='', EPS=EPS):
+    """one state: call get_matrix_orthogonal_basis and evaluate every clause of oracle 1.
+    zero_eps: None = the default call (threshold 1e-10, domain band (SIGMA_LO, SIGMA_HI)); a number = passed as the documented
+    option, domain band (zero_eps/10, 10 zero_eps).  variant: suffix of every finding key of this state ('' = double precision
+    default call; '/float32', '/int64', '/zero_eps' ...): a defect confined to an option / dtype gets its own key.
+    The reference always works on the exact values of the handed array (cast to double / complex double).
+    EPS: unit roundoff of the precision the library computes in (= input dtype: float32 / complex64 lists are reduced by a single
+    precision SVD, so orthogonality / span residuals are O(n eps32)); the double precision default for every other dtype."""
     fn = numqi.matrix_space.get_matrix_orthogonal_basis
     site = 'decomp/get_matrix_orthogonal_basis'
     N0, m, n = gens.shape
     out.state()
     sv = ref_singular_values(gens, field)
-    if np.any((sv > SIGMA_LO) & (sv < SIGMA_HI)):
+    s_lo, s_hi = (SIGMA_LO, SIGMA_HI) if zero_eps is None else (zero_eps / 10, zero_eps * 10)
+    if np.any((sv > s_lo) & (sv < s_hi)) or (zero_eps is not None and len(sv) and 8 * EPS * sv.max() > s_lo):
+        # second clause: the SVD error bound p eps sigma_1 (p = 8) of library and reference must stay below the band
         out.count('skipped_ill_conditioned')
         return
-    rank = int((sv >= SIGMA_HI).sum())
-    sigma_disc = float(sv[sv < SIGMA_HI].max()) if np.any(sv < SIGMA_HI) else 0.0
+    rank = int((sv >= s_hi).sum())
+    sigma_disc = float(sv[sv < s_hi].max()) if np.any(sv < s_hi) else 0.0
     det = dict(cfg, generators=gens, field=field, state=label)
+    kw = {}
+    if zero_eps is not None:
+        kw['zero_eps'] = zero_eps
+        det['zero_eps'] = zero_eps
     out.trans()
     try:
-        res = fn(gens.copy(), field)
+        res = fn(gens.copy(), field, **kw)
     except AssertionError as e:
         if core.is_precondition_assert(e) and 'not implemented' in str(e):
             out.count('rejected_by_precondition')
             return
-        out.violation('%s/AssertionError' % site, 'AssertionError on an admissible generator list (%s): %s' % (label, str(e)[:120]), **det)
+        out.violation('%s/AssertionError%s' % (site, variant), 'AssertionError on an admissible generator list (%s): %s' % (label, str(e)[:120]), **det)
         return
     except Exception as e:  # noqa
         cls = 'zero_subspace' if rank == 0 else 'rank>0'
-        out.violation('%s/%s/%s' % (site, type(e).__name__, cls),
+        out.violation('%s/%s/%s%s' % (site, type(e).__name__, cls, variant),
                       '%s for %s generator list %s, field=%s, shape (%d,%d,%d): %s' % (type(e).__name__, cfg['gen'], label, field, N0, m, n, str(e)[:150]), **det)
         return
     if not (isinstance(res, tuple) and len(res) == 3):
-        out.violation(site + '/return_type', 'expected (basis, basis_orth, space_char)', **det)
+        out.violation(site + '/return_type' + variant, 'expected (basis, basis_orth, space_char)', **det)
         return
     basis, compl, char = res
     basis, compl = np.asarray(basis), np.asarray(compl)
-    key = '%s/%%s/%s' % (site, char if char in FIELD_OF else 'unknown')
+    key = '%s/%%s/%s%s' % (site, char if char in FIELD_OF else 'unknown', variant)
     # ---- reported class: documented for this dtype/field, contains the input, narrowest if the list is generic
     allowed = ALLOWED[(bool(np.iscomplexobj(gens)), field)]
     if char not in allowed or class_defect(gens, char) > 0:
-        out.violation(site + '/wrong_space_char', 'space_char %r for a %s list over the %s field (%s): not a documented class containing the input'
+        out.violation(site + '/wrong_space_char' + variant, 'space_char %r for a %s list over the %s field (%s): not a documented class containing the input'
                       % (char, cfg['gen'], field, label), got=char, allowed=list(allowed), **det)
         return
     if strict_char is not None and char != strict_char:
-        out.violation(site + '/wrong_space_char', 'space_char %r for a generic %s list over the %s field, documented %r' % (char, cfg['gen'], field, strict_char),
+        out.violation(site + '/wrong_space_char' + variant, 'space_char %r for a generic %s list over the %s field, documented %r' % (char, cfg['gen'], field, strict_char),
                       got=char, expected=strict_char, **det)
         return
     amb = ambient_dim(char, m, n)
@@ -337,7 +363,7 @@ def check_decomp(numqi, out, gens, field, strict_char, label, cfg):
             return
         basis, d1 = unblock(basis, m, n)
         compl, d2 = unblock(compl, m, n)
-        if max(d1, d2) > tol_decomp(ncoord, 2.0):
+        if max(d1, d2) > tol_decomp(ncoord, 2.0, EPS):
             out.violation(key % 'block_structure', 'result is not of the form [[re,-im],[im,re]] (deviation %.3g)' % max(d1, d2), **det)
             return
     # ---- rank
@@ -351,7 +377,7 @@ def check_decomp(numqi, out, gens, field, strict_char, label, cfg):
     if rank and not (nu2 > 0):
         out.violation(key % 'norms_differ', 'basis element of zero norm', **det)
         return
-    tol = tol_decomp(ncoord, nu2)
+    tol = tol_decomp(ncoord, nu2, EPS)
     ok = True
     if rank:
         dg = np.real(np.diag(Gb))
@@ -442,6 +468,44 @@ def run_decomp(case, out, env):
                     continue
                 g = np.stack(apply_pattern(pat, atoms[:k])).astype(dt)
                 check_decomp(numqi, out, g, field, expected, 'atoms(set%d,k=%d,%s)' % (gset, k, pat), cfg)
+    # ---- dtype axis (audit gap 1): single precision atoms with EXACT dependencies, integer unit lists
+    # atoms on the grid 2^-10 (|entries| < 8, integer combinations with |coefficients| <= 2 of at most 25 atoms: < 2^9 * 2^10 grid
+    # points, exact in the 24 bit mantissa of float32), so the cast list has exactly the rank of the double precision list and the
+    # reference (exact cast values -> double) needs no single precision tolerance; the result is compared with double tolerances
+    # whenever it is returned in double precision and with eps(float32) if the library answers in single precision
+    sdt = np.complex64 if cplx else np.float32
+    for gset in range(case.get('G32', G)):
+        rng = env.rng('decomp', gen, field, m, n, gset)
+        atoms = [np.round(np.clip(atom(rng, gen, m, n), -7, 7) * QUANT) / QUANT for _ in range(amb)]
+        for k in range(1, amb + 1):
+            for pat in DTYPE_PATTERNS:
+                g = np.stack(apply_pattern(pat, atoms[:k]))
+                g32 = g.astype(sdt)
+                assert np.array_equal(g32.astype(dt), g.astype(dt))  # harness premise: the cast is exact
+                out.count('decomp_single_precision_states')
+                check_decomp(numqi, out, g32, field, expected, 'atoms_q(set%d,k=%d,%s,%s)' % (gset, k, pat, sdt.__name__), cfg, variant='/' + sdt.__name__,
+                             EPS=EPS32)
+    if not cplx:
+        for idx in unit_lists(units):
+            g = np.stack([units[i] for i in idx]).astype(np.int64)
+            check_decomp(numqi, out, g, field, None, 'units_int64%s' % (idx if len(idx) <= 6 else '[%d..%d](%d)' % (idx[0], idx[-1], len(idx))), cfg,
+                         variant='/int64')
+        atoms_i = [np.round(3 * x).astype(np.int64) for x in atoms]  # generic integer atoms (last atom set), exact dependencies
+        for k in range(1, amb + 1):
+            for pat in DTYPE_PATTERNS:
+                g = np.stack(apply_pattern(pat, atoms_i[:k])).astype(np.int64)
+                check_decomp(numqi, out, g, field, None, 'atoms_int64(k=%d,%s)' % (k, pat), cfg, variant='/int64')
+    # ---- zero_eps option (audit gap 2): [a_1..a_k, a_1 + delta E]/8 with E a further generic atom of unit norm; the reference rank
+    # uses the same threshold; lists with a singular value within a factor 10 of the threshold are outside the domain
+    rng = env.rng('decomp', gen, field, m, n, 'zero_eps')
+    atoms = [atom(rng, gen, m, n) / 8 for _ in range(amb)]
+    for k in (range(1, amb) if case.get('zero_eps_all_k', True) else sorted({1, 2, amb // 2, amb - 1} & set(range(1, amb)))):
+        E = atoms[k] / np.linalg.norm(atoms[k])
+        for delta in PERTURB_DECOMP:
+            g = np.stack(list(atoms[:k]) + [atoms[0] + delta * E]).astype(dt)
+            for z in ZERO_EPS_DECOMP:
+                out.count('decomp_zero_eps_states')
+                check_decomp(numqi, out, g, field, expected, 'atoms(k=%d,dup+%gE,zero_eps=%g)' % (k, delta, z), cfg, zero_eps=z, variant='/zero_eps')
     out.sample = {'kind': 'decomp', 'gen': gen, 'field': field, 'shape': [m, n], 'expected_space_char': expected, 'ambient': amb,
                   'unit_lists': len(unit_lists(units)), 'patterns': list(PATTERNS), 'atom_sets': G}
 
@@ -540,6 +604,13 @@ def planted_matrices(dA, dB, rk, cplx, G, rng, symmetric=False):
         ret.append(('E00+E11+E01', np.outer(eA[0], eB[0]) + np.outer(eA[1], eB[1]) + np.outer(eA[0], eB[1])))
         for g in range(G):
             ret.append(('atom%d' % g, gauss(rng, (dA, 2), cplx) @ gauss(rng, (2, dB), cplx)))
+    elif 3 <= rk <= min(dA, dB):   # all partial identities with rk units, one structured sum, generic atoms
+        for I in itertools.combinations(range(dA), rk):
+            for J in itertools.combinations(range(dB), rk):
+                ret.append(('+'.join('E%d%d' % (i, a) for i, a in zip(I, J)), sum(np.outer(eA[i], eB[a]) for i, a in zip(I, J))))
+        ret.append(('sum_(i<%d)E_ii+E01' % rk, sum(np.outer(eA[i], eB[i]) for i in range(rk)) + np.outer(eA[0], eB[1])))
+        for g in range(G):
+            ret.append(('atom%d' % g, gauss(rng, (dA, rk), cplx) @ gauss(rng, (rk, dB), cplx)))
     else:
         raise ValueError(rk)
     for lab, P in ret:
@@ -579,16 +650,52 @@ def run_certificate(case, out, env):
         return x
     atoms = generic(N - 1)
     twin = generic(1)[0]
+    # option zero_eps (default 1e-7 in all three functions). A smaller threshold makes the certificate easier to obtain: soundness is
+    # demanded as for the default. A larger one can only withhold it: the planted alphabet is skipped, the twins are recorded and the
+    # certificate must be monotone (issued at the larger threshold => issued at the default).
+    zeps = case.get('zero_eps')
+    zkw = {} if zeps is None else {'zero_eps': zeps}
+    z_eff = 1e-7 if zeps is None else zeps
+    larger = zeps is not None and zeps > 1e-7
+    cfgdet = {k_: v for k_, v in case.items() if k_ not in ('G',)}
     if kind == 'hier':
         r, k = case['r'], case['k']
         site = 'hier/has_rank_hierarchical_method'
         planted = planted_matrices(dims[0], dims[1], r - 1, cplx, G, rng)
         if r == 3:
             planted += [('rank1:' + l, P) for l, P in planted_matrices(dims[0], dims[1], 1, cplx, G, rng)[-(G + 2):]]
+        if r >= 4:   # every lower rank: structured sums and generic atoms
+            for rk in range(1, r - 1):
+                planted += [('rank%d:%s' % (rk, l), P) for l, P in planted_matrices(dims[0], dims[1], rk, cplx, G, rng)[-(G + 2):]]
         streams = [None]
+        hfn = numqi.matrix_space.has_rank_hierarchical_method
 
-        def call(B, stream):
-            return bool(numqi.matrix_space.has_rank_hierarchical_method(B, r, hierarchy_k=k))
+        def call(B, stream, blab='', zkw=zkw):
+            ans = bool(hfn(B, r, hierarchy_k=k, **zkw))
+            if blab == 'first':   # argument form: a list of matrices (np.asarray inside) must give the answer of the array
+                out.trans()
+                a2 = bool(hfn([x.copy() for x in B], r, hierarchy_k=k, **zkw))
+                out.check(a2 == ans, site + '/list_input_differs', 'has_rank_hierarchical_method(list of matrices) = %s but %s for the stacked array' % (a2, ans),
+                          basis=B, **cfgdet)
+            if blab == ('atom' if N >= 2 else 'first'):   # option return_info=True: (same answer, Hermitian PSD matrix whose smallest eigenvalue is tested)
+                out.trans()
+                ri = hfn(B, r, hierarchy_k=k, return_info=True, **zkw)
+                if not (isinstance(ri, tuple) and len(ri) == 2):
+                    out.violation(site + '/return_info/return_type', 'return_info=True: expected (answer, matrix)', basis=B, **cfgdet)
+                else:
+                    M = np.asarray(ri[1])
+                    out.check(bool(ri[0]) == ans, site + '/return_info/answer_differs', 'return_info=True answers %s, the plain call %s' % (bool(ri[0]), ans), basis=B, **cfgdet)
+                    okM = M.ndim == 2 and M.shape[0] == M.shape[1] and bool(np.all(np.isfinite(M)))
+                    if okM:
+                        # M = T T^H by one matrix product: Hermitian and PSD up to the rounding of the product, eps * (inner length) * max|M|
+                        # (inner length = #antisymmetric coordinates x #symmetric coordinates x #index splittings)
+                        n_inner = comb(dims[0], r) * comb(dims[1], r) * (dims[0] * dims[1]) ** (k - 1) * comb(r - 1 + k, r)
+                        tolM = C_SAFETY * EPS * max(n_inner, 1) * max(float(np.abs(M).max()), 1e-300)
+                        ev = np.linalg.eigvalsh((M + M.conj().T) / 2)
+                        okM = float(np.abs(M - M.conj().T).max()) <= tolM and ev[0] >= -tolM and (abs(ev[0] - z_eff) <= tolM or (ev[0] > z_eff) == ans)
+                    out.check(okM, site + '/return_info/matrix', 'return_info=True: the matrix is not a finite Hermitian PSD matrix whose smallest eigenvalue '
+                              'reproduces the answer', basis=B, matrix=M, answer=ans, **cfgdet)
+            return ans
         certificate = True
         what = 'has_rank_hierarchical_method(basis, rank=%d, hierarchy_k=%d) returned True (= every non-zero element has rank >= %d)' % (r, k, r)
     elif kind == 'abc':
@@ -599,8 +706,8 @@ def run_certificate(case, out, env):
             planted = planted[-G:]
         streams = [None]
 
-        def call(B, stream):
-            return bool(numqi.matrix_space.is_ABC_completely_entangled_subspace(B, hierarchy_k=k))
+        def call(B, stream, blab='', zkw=zkw):
+            return bool(numqi.matrix_space.is_ABC_completely_entangled_subspace(B, hierarchy_k=k, **zkw))
         certificate = True
         what = 'is_ABC_completely_entangled_subspace(basis, hierarchy_k=%d) returned True (= no product vector in the subspace)' % k
     elif kind == 'rank1':
@@ -608,9 +715,9 @@ def run_certificate(case, out, env):
         planted = planted_matrices(dims[0], dims[1], 1, False, G, rng, symmetric=sym)
         streams = list(range(case['streams'])) if dims[0] * dims[1] >= 5 else [0]
 
-        def call(B, stream):
+        def call(B, stream, blab='', zkw=zkw):
             with EntropySeam(stream) as seam:
-                ret = numqi.matrix_space.detect_real_matrix_subspace_rank_one(B)
+                ret = numqi.matrix_space.detect_real_matrix_subspace_rank_one(B, **zkw)
             out.count('entropy_draws_answered', len(seam.hits))
             return bool(ret[0]), float(ret[1])
         certificate = False
@@ -621,9 +728,8 @@ def run_certificate(case, out, env):
     def issued(ans):
         a = ans[0] if isinstance(ans, tuple) else ans
         return a == certificate
-    cfgdet = {k_: v for k_, v in case.items() if k_ not in ('G',)}
     n_planted_states = 0
-    for plab, P in planted:
+    for plab, P in ([] if larger else planted):
         P = np.asarray(P, dtype=dt)
         gens = np.concatenate([P[None], atoms.astype(dt)], axis=0)
         for blab, family, B in handed_bases(gens, cplx, env.rng(kind, 'basis', dims, N, cplx), out, rot, reduced):
@@ -633,7 +739,7 @@ def run_certificate(case, out, env):
                 out.trans()
                 n_planted_states += 1
                 try:
-                    ans = call(B, stream)
+                    ans = call(B, stream, blab)
                 except Exception as e:  # noqa
                     out.violation('%s/%s' % (site, type(e).__name__), '%s on an orthonormal basis (planted %s, basis %s): %s' % (type(e).__name__, plab, blab, str(e)[:150]),
                                   basis=B, planted=P, planted_label=plab, basis_label=blab, **cfgdet)
@@ -648,6 +754,45 @@ def run_certificate(case, out, env):
                 else:
                     out.trace()
                 out.outcome((kind, dims, case.get('r'), N, case.get('k'), cplx, sym, 'planted', blab.split('(')[0], issued(ans)), nontrivial=False)
+    # raw generator lists (audit gap 3; rank1 only: the detector orthogonalises internally, docstring 'a series of real matrices'):
+    # change of basis {first, atom} (NOT orthonormalised) x dependency pattern x common scale; the planted element stays in the span
+    if kind == 'rank1' and case.get('raw') and not larger:
+        pl_raw = planted if case['raw'].get('planted') == 'all' else planted[:1] + planted[-(G + 2):]   # quick: first unit, structured, generic atoms
+        for which, P0 in [('planted', P_) for P_ in pl_raw] + [('twin', ('generic', twin))]:
+            plab, P = P0
+            gens = np.concatenate([np.asarray(P, dtype=dt)[None], atoms.astype(dt)], axis=0)
+            for clab, M in change_of_basis(N, False, env.rng(kind, 'basis', dims, N, cplx)):
+                if clab not in case['raw']['bases']:
+                    continue
+                base = np.tensordot(M, gens, axes=(1, 0))
+                if orthonormalise(base)[1] < 1e-6:
+                    out.count('skipped_ill_conditioned')
+                    continue
+                for pat in case['raw']['patterns']:
+                    lst = np.stack(apply_pattern(pat, list(base)))
+                    for scale in case['raw']['scales']:
+                        raw = scale * lst
+                        out.state()
+                        out.trans()
+                        det = dict(cfgdet, generators=raw, planted=P, planted_label=plab, basis_label=clab, pattern=pat, scale=scale)
+                        try:
+                            ans = call(raw, 0)
+                        except Exception as e:  # noqa
+                            out.violation('%s/%s/raw_generators' % (site, type(e).__name__), '%s on a raw generator list (%s, %s, pattern %s, scale %g): %s'
+                                          % (type(e).__name__, plab, clab, pat, scale, str(e)[:150]), **det)
+                            continue
+                        if which == 'twin':
+                            out.count('twin_certified_raw' if issued(ans) else 'twin_not_certified_raw')
+                            out.outcome((kind, dims, N, sym, 'twin_raw', pat, scale, issued(ans)), nontrivial=issued(ans))
+                        elif issued(ans):
+                            out.violation('%s/false_certificate/raw_generators' % site,
+                                          '%s for the raw (not orthonormalised) generator list of a %d-dimensional real subspace of %s matrices that contains the '
+                                          'rank-one element %s (change of basis %s, dependency pattern %s, scale %g) upper_bound-1=%.3g'
+                                          % (what, N, 'x'.join(str(d) for d in dims), plab, clab, pat, scale, ans[1] - 1), **det)
+                            continue
+                        else:
+                            out.outcome((kind, dims, N, sym, 'planted_raw', pat, scale, False), nontrivial=False)
+                        out.trace()
     # generic twins: same construction without the planted element (recorded only)
     gens = np.concatenate([twin[None].astype(dt), atoms.astype(dt)], axis=0)
     for blab, family, B in handed_bases(gens, cplx, env.rng(kind, 'basis', dims, N, cplx), out, (), reduced):
@@ -657,7 +802,11 @@ def run_certificate(case, out, env):
             out.state()
             out.trans()
             try:
-                ans = call(B, stream)
+                ans = call(B, stream, blab)
+                if larger:
+                    ans0 = call(B, stream, '', {})
+                    out.check(issued(ans0) or not issued(ans), site + '/zero_eps_not_monotone', 'certificate issued with zero_eps=%g but not with the '
+                              'smaller default threshold' % zeps, basis=B, **cfgdet)
             except Exception as e:  # noqa
                 out.violation('%s/%s' % (site, type(e).__name__), '%s on a generic orthonormal basis: %s' % (type(e).__name__, str(e)[:150]), basis=B, **cfgdet)
                 continue
@@ -670,6 +819,10 @@ def run_certificate(case, out, env):
 
 # =============================================================================================== numerical range
 def numrange_alphabet(n, G, rng):
+    if n == 1:   # W(A) = {a}: every returned point is the entry itself
+        return [('zero', np.zeros((1, 1), dtype=np.complex128)), ('real_scalar', np.array([[2.5]])), ('int_scalar', np.array([[-3]], dtype=np.int64)),
+                ('imag_scalar', np.array([[1.5j]]))] + [('atom%d' % g, gauss(rng, (1, 1), True)) for g in range(G)]
+
     def herm():
         a = gauss(rng, (n, n), True)
         return (a + a.conj().T) / 2
@@ -694,6 +847,11 @@ def numrange_alphabet(n, G, rng):
         ret.append(('real_atom%d' % g, rng.normal(size=(n, n))))
     for g in range(G):
         ret.append(('atom%d' % g, gauss(rng, (n, n), True)))
+    # integer dtype (drawn last: the atoms above do not depend on this addition)
+    ret.append(('int_jordan', np.diag(np.ones(n - 1, dtype=np.int64), 1)))
+    ret.append(('int_diag', np.diag(np.arange(n, dtype=np.int64) - 1)))
+    for g in range(G):
+        ret.append(('int_atom%d' % g, np.round(3 * rng.normal(size=(n, n))).astype(np.int64)))
     return ret
 
 
@@ -707,14 +865,15 @@ def run_numrange(case, out, env):
     import numqi
     n, G = case['n'], case['G']
     site = 'numrange/get_matrix_numerical_range'
-    branch = 'arpack' if n >= 5 else 'dense'
+    branch = 'arpack' if n >= 5 else 'dense'   # size class (historical name: n>=5 used ARPACK before the repair; keys kept stable)
     streams = list(range(case['streams'])) if n >= 5 else [0]
     alphabet = numrange_alphabet(n, G, env.rng('numrange', n))
     for lab, A in alphabet:
         normA = float(np.linalg.norm(A, 2))
         tol = C_SAFETY * EPS * n * normA
         scalar = bool(np.abs(A - A[0, 0] * np.eye(n)).max() == 0)
-        for npnt in case['num_point']:
+        for npnt_arg in case['num_point']:
+            npnt = 100 if npnt_arg is None else npnt_arg   # None: the call without num_point (documented default 100)
             theta = np.linspace(0, 2 * np.pi, npnt)
             sup = [support_function(A, t) for t in theta]
             h = np.array([s[0] for s in sup])
@@ -722,10 +881,13 @@ def run_numrange(case, out, env):
             for stream in streams:
                 out.state()
                 out.trans()
-                det = dict(n=n, matrix=A, matrix_label=lab, num_point=npnt, entropy_stream=stream)
+                det = dict(n=n, matrix=A, matrix_label=lab, num_point=npnt_arg, entropy_stream=stream)
                 try:
                     with EntropySeam(stream) as seam:
-                        p = numqi.matrix_space.get_matrix_numerical_range(A.copy(), npnt)
+                        if npnt_arg is None:
+                            p = numqi.matrix_space.get_matrix_numerical_range(A.copy())
+                        else:
+                            p = numqi.matrix_space.get_matrix_numerical_range(A.copy(), npnt)
                     out.count('entropy_draws_answered', len(seam.hits))
                 except Exception as e:  # noqa
                     cls = 'zero_hermitian_part' if degenerate else 'generic'
@@ -766,6 +928,170 @@ def run_numrange(case, out, env):
                   'streams': streams, 'atom0': alphabet[-1][1]}
 
 
+# =============================================================================================== bipartite numerical range
+SQRT_EPS = 1.4901161193847656e-08   # Brent's relative x tolerance inside scipy.optimize.minimize_scalar (and its xtol, 1.48e-8)
+
+
+def unguarded(fn, *a, **kw):
+    """call fn at guard depth 1 (argument-immutability / memory-layout oracles off), for record-only calls of documented-unreliable paths"""
+    g = core._GUARDS.get(__name__)
+    if g is None:
+        return fn(*a, **kw)
+    g.depth += 1
+    try:
+        return fn(*a, **kw)
+    finally:
+        g.depth -= 1
+
+
+def partial_transpose_B(M, dA, dB):
+    return M.reshape(dA, dB, dA, dB).transpose(0, 3, 2, 1).reshape(dA * dB, dA * dB)
+
+
+def ref_bipartite(M, dA, dB, kind):
+    """own reference for min_p lambda_max(p M + (1-p) M^Gamma) (kind='max') / max_p lambda_min (kind='min'): the function of p is
+    convex and, unless M = M^Gamma, coercive; bracket by doubling, then golden section (plain numpy). Returns (value, p*)"""
+    D = M - partial_transpose_B(M, dA, dB)
+    Mg = M - D
+    sgn = 1.0 if kind == 'max' else -1.0
+
+    def f(p):
+        return float(np.linalg.eigvalsh(sgn * (Mg + p * D))[-1])
+    if np.abs(D).max() == 0:
+        return sgn * f(0.0), 0.0
+    R = 1.0
+    while not (f(-R) > f(-R / 2) and f(R) > f(R / 2)) and R < 1e6:
+        R *= 2
+    a, b = -R, R
+    g = (np.sqrt(5) - 1) / 2
+    c, d = b - g * (b - a), a + g * (b - a)
+    fc, fd = f(c), f(d)
+    for _ in range(120):
+        if fc < fd:
+            b, d, fd = d, c, fc
+            c = b - g * (b - a)
+            fc = f(c)
+        else:
+            a, c, fc = c, d, fd
+            d = a + g * (b - a)
+            fd = f(d)
+    ps = (a + b) / 2
+    return sgn * min(fc, fd, f(ps)), ps
+
+
+def bipartite_alphabet(dA, dB, G, rng):
+    """real symmetric (dA dB x dA dB) matrices with a known or independently computable bipartite range.
+    (label, matrix, exact (min,max) or None)"""
+    def psd(d):
+        a = rng.normal(size=(d, d))
+        return a @ a.T
+
+    def asym(d):
+        a = rng.normal(size=(d, d))
+        return a - a.T
+    n = dA * dB
+    ret = [('zero', np.zeros((n, n)), (0.0, 0.0)), ('identity', np.eye(n), (1.0, 1.0)),
+           ('E00', np.diag([1.0] + [0.0] * (n - 1)), (0.0, 1.0)), ('diag', np.diag(np.arange(n, dtype=np.float64) - 1), (-1.0, n - 2.0))]
+    for g in range(G):
+        A1, A2 = psd(dA), psd(dB)
+        e1, e2 = np.linalg.eigvalsh(A1), np.linalg.eigvalsh(A2)
+        ret.append(('psd(x)psd%d' % g, np.kron(A1, A2), (e1[0] * e2[0], e1[-1] * e2[-1])))
+        ret.append(('psd(x)psd%d-2I' % g, np.kron(A1, A2) - 2 * np.eye(n), (e1[0] * e2[0] - 2, e1[-1] * e2[-1] - 2)))
+        ret.append(('antisym(x)antisym%d' % g, np.kron(asym(dA), asym(dB)), (0.0, 0.0)))  # x^T A x = 0: the range is {0}; kink at p = 1/2
+        a = rng.normal(size=(n, n))
+        ret.append(('atom%d' % g, (a + a.T) / 2, None))
+        q = np.linalg.qr(rng.normal(size=(n, max(1, n // 2))))[0]
+        ret.append(('projector%d' % g, q @ q.T, None))   # the form detect_real_matrix_subspace_rank_one hands over
+    return ret
+
+
+def run_bipartite(case, out, env):
+    """get_real_bipartite_numerical_range(B, kind, method): kind x method x entropy stream over the alphabet.
+    Oracle (method='eigen'): value == own convex minimisation; equals the exact range end where it is known; bounds every product
+    vector e_i (x) f_j;  min(B) == -max(-B).  method='rotation' is documented as unreliable ('might give wrong results'): recorded."""
+    import numqi
+    dA, dB, G = case['dims'][0], case['dims'][1], case['G']
+    n = dA * dB
+    fn = numqi.matrix_space.get_real_bipartite_numerical_range
+    site = 'bipartite/get_real_bipartite_numerical_range'
+    streams = list(range(case['streams'])) if n >= 5 else [0]
+    alphabet = bipartite_alphabet(dA, dB, G, env.rng('bipartite', dA, dB))
+    for lab, M, exact in alphabet:
+        normM = float(np.linalg.norm(M, 2))
+        L = float(np.linalg.norm(M - partial_transpose_B(M, dA, dB), 2))   # Lipschitz constant of p -> lambda(p M + (1-p) M^Gamma)
+        diag = np.diag(M)   # values on the product vectors e_i (x) f_j
+        got = {}
+        for kind in ('min', 'max'):
+            ref, pstar = ref_bipartite(M, dA, dB, kind)
+            # Brent stops within 3 (sqrt(eps)|p| + xtol/3) of the minimiser; the objective moves by at most L per unit of p; eigenvalues
+            # are accurate to n eps ||.||_2 (LAPACK, ARPACK with tol=0) at |p| <= |p*|+1: one-sided, the optimiser can only stay ABOVE
+            tol_eig = C_SAFETY * EPS * n * normM * (1 + 2 * abs(pstar))
+            tol_opt = 10 * 3 * L * (SQRT_EPS * abs(pstar) + SQRT_EPS)
+            for sign in (1, -1):   # B and -B (with the opposite kind)
+                k2 = kind if sign == 1 else {'min': 'max', 'max': 'min'}[kind]
+                for stream in streams:
+                    out.state()
+                    out.trans()
+                    det = dict(dims=[dA, dB], matrix=M, matrix_label=lab, kind=k2, sign=sign, entropy_stream=stream)
+                    if lab == 'zero' and n >= 5 and 'bipartite_zero_matrix' in PENDING:
+                        out.count('pending/bipartite_zero_matrix')
+                        continue
+                    try:
+                        with EntropySeam(stream) as seam:
+                            v = fn((sign * M).reshape(dA, dB, dA, dB).copy(), kind=k2, method='eigen')
+                        out.count('entropy_draws_answered', len(seam.hits))
+                    except Exception as e:  # noqa
+                        out.violation('%s/%s/%s' % (site, type(e).__name__, 'zero_matrix' if normM == 0 else 'generic'),
+                                      '%s for the symmetric %dx%d (x) %dx%d matrix %s, kind=%s: %s' % (type(e).__name__, dA, dA, dB, dB, lab, k2, str(e)[:120]), **det)
+                        continue
+                    v = sign * float(v)   # estimate of the `kind` end of the range of M
+                    if not np.isfinite(v):
+                        out.violation(site + '/nonfinite', 'NaN/Inf for matrix %s, kind=%s' % (lab, k2), **det)
+                        continue
+                    got[(kind, sign, stream)] = v
+                    s = 1.0 if kind == 'max' else -1.0
+                    over = s * (v - ref)    # >= -tol_eig (cannot beat the true optimum), <= tol_opt + tol_eig
+                    ok = True
+                    if over < -tol_eig or over > tol_opt + tol_eig:
+                        out.violation('%s/value_mismatch/%s' % (site, k2), 'kind=%s of %s%s: %.15g, own convex optimisation gives %.15g (p*=%.6g; allowed '
+                                      'excess [%.2g, %.2g])' % (k2, '-' if sign < 0 else '', lab, sign * v, sign * ref, pstar, -tol_eig, tol_opt + tol_eig),
+                                      got=sign * v, expected=sign * ref, **det)
+                        ok = False
+                    if exact is not None:
+                        ex = exact[1] if kind == 'max' else exact[0]
+                        if abs(v - ex) > tol_opt + tol_eig:
+                            out.violation('%s/known_range_end/%s' % (site, k2), 'kind=%s of %s%s: %.15g, exact value %.15g' % (k2, '-' if sign < 0 else '', lab, sign * v, sign * ex),
+                                          got=sign * v, expected=sign * ex, **det)
+                            ok = False
+                    worst = s * (diag.max() if kind == 'max' else diag.min())
+                    if s * v < worst - tol_eig:
+                        out.violation('%s/not_a_bound/%s' % (site, k2), 'kind=%s of %s%s: %.15g does not bound the value %.15g attained on a product basis vector'
+                                      % (k2, '-' if sign < 0 else '', lab, sign * v, sign * s * worst), **det)
+                        ok = False
+                    out.outcome(('bipartite', dA, dB, lab, kind, round(v, 6)), nontrivial=L > 0)
+                    if ok:
+                        out.trace()
+            # min/max symmetry under B -> -B: same objective up to the sign, both within the optimiser tolerance of the optimum
+            for stream in streams:
+                a, b = got.get((kind, 1, stream)), got.get((kind, -1, stream))
+                if a is not None and b is not None and abs(a - b) > tol_opt + 2 * tol_eig:
+                    out.violation('%s/sign_symmetry' % site, '%s(B)=%.15g but -%s(-B)=%.15g for B=%s' % (kind, a, {'min': 'max', 'max': 'min'}[kind], b, lab),
+                                  dims=[dA, dB], matrix=M, matrix_label=lab, kind=kind, entropy_stream=stream)
+        # method='rotation' (documented: 'might give wrong results, especially when numerical range is not smooth'): recorded only
+        # (called as a library-internal call: the layout oracle would demand reproducibility from a method that promises none)
+        for kind in ('min', 'max'):
+            out.state()
+            try:
+                with EntropySeam(0), contextlib.redirect_stdout(io.StringIO()):
+                    v = float(unguarded(fn, M.reshape(dA, dB, dA, dB).copy(), kind=kind, method='rotation'))
+                ref = got.get((kind, 1, 0))
+                agree = ref is not None and abs(v - ref) <= 1e-6 * max(normM, 1e-300)
+                out.count('rotation_agrees_with_eigen' if agree else 'rotation_differs_from_eigen')
+            except Exception:  # noqa  (degenerate numerical range: bracketing assert / root finder / ARPACK)
+                out.count('rotation_raised_on_nonsmooth_range')
+    out.sample = {'kind': 'bipartite', 'dims': [dA, dB], 'alphabet': [l for l, _, _ in alphabet], 'streams': streams}
+
+
 # =============================================================================================== cases
 DECOMP_COMBOS = [('Rgen', 'real'), ('Rsym', 'real'), ('Rgen', 'complex'), ('Rsym', 'complex'), ('Cgen', 'complex'), ('Cherm', 'real'),
                  ('Csym', 'complex'), ('Csym', 'real'), ('Cgen', 'real'), ('Cherm', 'complex')]
@@ -784,12 +1110,16 @@ def build_cases(tier, seed):
         else:
             shapes = sorted([(a, b) for a in range(2, dmax + 1) for b in range(2, dmax + 1)], key=lambda s: (s[0] * s[1], s))
         for m, n in shapes:
-            cases.append({'kind': 'decomp', 'gen': gen, 'field': field, 'm': m, 'n': n, 'G': G})
+            cases.append({'kind': 'decomp', 'gen': gen, 'field': field, 'm': m, 'n': n, 'G': G, 'G32': 1 if quick else G, 'zero_eps_all_k': not quick})
     cases.sort(key=lambda c: c['m'] * c['n'])
     # ---- numrange
     num_point = [1, 2, 3, 5, 8, 13] if quick else [1, 2, 3, 4, 5, 8, 13, 32, 100]
-    for n in range(2, 9):
-        cases.append({'kind': 'numrange', 'n': n, 'G': G, 'num_point': num_point, 'streams': 2 if quick else 4})
+    for n in range(1, 9):
+        default_too = [None] if n in ((3,) if quick else (1, 3, 6)) else []   # None = call without num_point (default 100)
+        cases.append({'kind': 'numrange', 'n': n, 'G': G, 'num_point': num_point + default_too, 'streams': 2 if quick else 4})
+    # ---- bipartite numerical range (options kind x method)
+    for dA, dB in ([(2, 2), (2, 3), (3, 2), (3, 3)] if quick else [(2, 2), (2, 3), (3, 2), (3, 3), (2, 4), (3, 4), (4, 4)]):
+        cases.append({'kind': 'bipartite', 'dims': [dA, dB], 'G': G, 'streams': 2 if quick else 3})
     # ---- rank1 (real)
     shapes1 = [(2, 2), (2, 3), (3, 3), (3, 4)] if quick else [(2, 2), (2, 3), (2, 4), (3, 3), (3, 4), (4, 4)]
     for dA, dB in shapes1:
@@ -797,20 +1127,45 @@ def build_cases(tier, seed):
         if quick and dA * dB > 9:
             nmax = 3
         for N in range(1, nmax + 1):
-            cases.append({'kind': 'rank1', 'dims': [dA, dB], 'N': N, 'G': G, 'streams': 2 if quick else 3, 'sym': False, 'rot': rot})
+            raw = None
+            if quick and N <= 2 and dA * dB <= 9:
+                raw = {'patterns': list(RAW_PATTERNS), 'scales': list(RAW_SCALES), 'bases': ['atom' if N >= 2 else 'first'], 'planted': 'subset'}
+            elif not quick:
+                raw = {'patterns': list(RAW_PATTERNS), 'scales': list(RAW_SCALES), 'bases': ['first', 'atom'], 'planted': 'all'}
+            cases.append({'kind': 'rank1', 'dims': [dA, dB], 'N': N, 'G': G, 'streams': 2 if quick else 3, 'sym': False, 'rot': rot, 'raw': raw})
             if dA == dB and N <= dA * (dA - 1) // 2 + 1:
-                cases.append({'kind': 'rank1', 'dims': [dA, dB], 'N': N, 'G': G, 'streams': 2 if quick else 3, 'sym': True, 'rot': rot})
+                cases.append({'kind': 'rank1', 'dims': [dA, dB], 'N': N, 'G': G, 'streams': 2 if quick else 3, 'sym': True, 'rot': rot, 'raw': raw})
+    # zero_eps option of the detector (smaller: soundness; larger: twins + monotonicity)
+    for dA, dB in ([(2, 2), (2, 3)] if quick else shapes1):
+        for N in range(1, 3 if quick else 4):
+            if N > (dA - 1) * (dB - 1) + 1:
+                continue
+            for z in ZERO_EPS_CERT:
+                cases.append({'kind': 'rank1', 'dims': [dA, dB], 'N': N, 'G': G, 'streams': 1 if quick else 2, 'sym': False, 'rot': rot[:1] if quick else rot,
+                              'zero_eps': z})
     # ---- abc
     if quick:
         abc_cfg = [((2, 2, 2), range(1, 6), (1, 2)), ((2, 2, 2), range(1, 4), (3,)), ((2, 2, 3), range(1, 5), (1, 2))]
     else:
         abc_cfg = [((2, 2, 2), range(1, 6), (1, 2, 3)), ((2, 2, 3), range(1, 8), (1, 2)), ((2, 2, 3), range(1, 6), (3,)),
                    ((2, 3, 3), range(1, 5), (1, 2))]
+    # permuted / unequal dimension triples (audit gap 5): the planted product vector lives in the permuted order
+    if quick:
+        abc_cfg += [((3, 2, 2), range(1, 4), (1, 2)), ((2, 3, 2), range(1, 4), (1,)), ((2, 3, 4), range(1, 3), (1,))]
+    else:
+        abc_cfg += [((3, 2, 2), range(1, 6), (1, 2)), ((2, 3, 2), range(1, 6), (1, 2)), ((3, 2, 2), range(1, 4), (3,)), ((2, 3, 4), range(1, 5), (1, 2)),
+                    ((4, 3, 2), range(1, 4), (1, 2)), ((3, 3, 2), range(1, 4), (1, 2))]
     for dims, Ns, ks in abc_cfg:
         for N in Ns:
             for k in ks:
                 for field in ('real', 'complex'):
                     cases.append({'kind': 'abc', 'dims': list(dims), 'N': N, 'k': k, 'field': field, 'G': G, 'rot': rot})
+    for dims, Ns, ks in ([((2, 2, 2), range(1, 4), (1,))] if quick else [((2, 2, 2), range(1, 5), (1, 2)), ((2, 2, 3), range(1, 4), (1,))]):
+        for N in Ns:
+            for k in ks:
+                for field in ('real', 'complex'):
+                    for z in ZERO_EPS_CERT:
+                        cases.append({'kind': 'abc', 'dims': list(dims), 'N': N, 'k': k, 'field': field, 'G': G, 'rot': rot[:1] if quick else rot, 'zero_eps': z})
     if not quick:
         # one large configuration with a reduced alphabet (generic planted atoms x {planted first, generic invertible} bases)
         cases.append({'kind': 'abc', 'dims': [2, 3, 3], 'N': 11, 'k': 3, 'field': 'real', 'G': G, 'rot': [], 'reduced': True})
@@ -822,6 +1177,18 @@ def build_cases(tier, seed):
         hier_cfg = [((3, 3), 2, range(1, 6), (1, 2, 3)), ((3, 3), 3, range(1, 3), (1, 2, 3)), ((3, 4), 2, range(1, 7), (1, 2)),
                     ((3, 4), 2, range(1, 5), (3,)), ((3, 4), 3, range(1, 4), (1, 2)), ((4, 4), 2, range(1, 7), (1, 2)), ((4, 4), 2, range(1, 5), (3,)),
                     ((4, 4), 3, range(1, 5), (1, 2)), ((4, 4), 3, range(1, 4), (3,))]
+    # audit gap 4: dA = 2 (one-dimensional antisymmetric space), full rank bound r = dA = dB, non-square 4x5; level 1
+    hier_cfg += [((2, 3), 2, range(1, 3), (1,)), ((2, 4), 2, range(1, 4), (1,)), ((4, 4), 4, range(1, 3), (1,)), ((4, 5), 2, range(1, 5 if quick else 8), (1,))]
+    if not quick:
+        hier_cfg += [((2, 3), 2, range(1, 3), (2, 3)), ((2, 4), 2, range(1, 4), (2,)), ((4, 4), 4, range(1, 3), (2,)), ((4, 5), 2, range(1, 4), (2,)),
+                     ((4, 5), 3, range(1, 4), (1,))]
+    for (dA, dB), r, Ns, ks in ([((3, 3), 2, range(1, 3), (1, 2))] if quick else [((3, 3), 2, range(1, 4), (1, 2, 3)), ((3, 4), 2, range(1, 4), (1, 2)),
+                                                                                 ((4, 4), 3, range(1, 3), (1,))]):
+        for N in Ns:
+            for k in ks:
+                for field in ('real', 'complex'):
+                    for z in ZERO_EPS_CERT:
+                        cases.append({'kind': 'hier', 'dims': [dA, dB], 'r': r, 'N': N, 'k': k, 'field': field, 'G': G, 'rot': rot[:1] if quick else rot, 'zero_eps': z})
     for (dA, dB), r, Ns, ks in hier_cfg:
         for N in Ns:
             for k in ks:
@@ -835,7 +1202,7 @@ def build_cases(tier, seed):
         'rank1': {'shapes': [list(s) for s in shapes1], 'N': '1..(dA-1)(dB-1)+1 (quick: 1..3 for shapes with more than 9 entries)',
                   'symmetric_variant': 'square shapes'},
         'change_of_basis_alphabet': ['first', 'last', 'dense', 'atom'] + ['rot(%g,first|last)' % t for t in rot],
-        'numrange': {'n': [2, 8], 'num_point': num_point, 'entropy_streams': 2 if quick else 4},
+        'numrange': {'n': [1, 8], 'num_point': num_point, 'default_num_point_at_n': [3] if quick else [1, 3, 6], 'dtypes': ['complex128', 'float64', 'int64'], 'entropy_streams': 2 if quick else 4},
         'generic_atoms_per_alphabet': G,
         'exhaustive': True,
         'note': 'exhaustive within the stated bounds: every element of every listed product is executed; real-valued inputs off the '
@@ -852,5 +1219,7 @@ def run_case(case, out, env):
         run_certificate(case, out, env)
     elif kind == 'numrange':
         run_numrange(case, out, env)
+    elif kind == 'bipartite':
+        run_bipartite(case, out, env)
     else:
         raise ValueError(kind)
